@@ -15,7 +15,7 @@ from core.loader import AnalysisError, Repo, norm
 from core.report import Result
 
 from . import search as S
-from .common import cfg_of, dotted, stmt_of, where
+from .common import cfg_of, dotted, helper_object_sources, stmt_of, where
 
 
 def _hier_args(repo: Repo, call: ast.Call) -> list[str]:
@@ -641,6 +641,8 @@ def run_closure(repo: Repo, res: Result, rule_id: str = "C03.R1") -> int:
             res.undecide(rule_id, repo.key(fi, anchor) + " [worklist start]", bad_filter[2], where(fi, anchor))
         elif bad_filter is not None:
             res.add(rule_id, repo.key(fi, anchor) + " [worklist start]", False, bad_filter[2], where(fi, anchor), kind="structural")
+        elif not ok and helper_object_sources(fi, m.worklist_sources):
+            res.undecide(rule_id, repo.key(fi, anchor) + " [worklist start]", f"the worklist is owned by a helper object `{helper_object_sources(fi, m.worklist_sources)[0]}` of a class defined in this module; the search model does not read that class, so where the traversal starts is not decided", where(fi, anchor))
         else:
             res.add(rule_id, repo.key(fi, anchor) + " [worklist start]", ok, f"worklist starts from {S.SUBMODULES}(graph, {subj})" if ok else f"worklist starts from {m.worklist_sources}, not from the subject's subtree `{own[0]}`", where(fi, anchor), kind="structural")
         n += 1
